@@ -6,10 +6,11 @@ ALL=0; if [ "$1" = "--all-props" ]; then ALL=1; shift; fi
 git -C /repo diff --quiet || { echo "/repo is dirty"; exit 2; }
 bin/check --build-only
 CLAIMED=$(.cache/gojacheck -list | sed -n 's/^\(C[0-9]*\):.*/\1/p')
-out=seeded/RESULTS.txt; : > $out.tmp
+out=${OUT:-seeded/RESULTS.txt}; : > $out.tmp
 for d in $(ls -d seeded/C*/[a-z] | sort); do
   id=$(basename $(dirname $d)); n=$(basename $d)
   if [ $# -gt 0 ] && ! echo " $* " | grep -q " $id "; then continue; fi
+  if [ -n "$NS" ] && ! echo " $NS " | grep -q " $n "; then continue; fi
   if ! git -C /repo apply --check $PWD/$d/patch.diff 2>/dev/null; then echo "$id/$n PATCH-DOES-NOT-APPLY" | tee -a $out.tmp; continue; fi
   git -C /repo apply $PWD/$d/patch.diff
   props=$id; [ $ALL = 1 ] && props=$CLAIMED
